@@ -121,6 +121,7 @@ type Ctx struct {
 	tier   string
 	seed   int64
 	driver string
+	gendriver string // driver of the generated model (tools/go2lean), same line protocol
 	rep    *Report
 	maxV   int
 	replay *Violation
@@ -191,6 +192,7 @@ func main() {
 	seed := flag.Int64("seed", 1, "seed")
 	out := flag.String("out", "", "report file")
 	driver := flag.String("driver", "", "path of the Lean driver executable (empty: skip correspondence)")
+	gendriver := flag.String("gendriver", "", "path of the driver of the model generated from the source (empty: skip)")
 	replay := flag.String("replay", "", "replay file (a violation record)")
 	facts := flag.String("facts", "", "write the facts table (registries, constants) as JSON to this file and exit")
 	dict := flag.String("dict", "", "dictionary.json written by tools/extract (literals of the current source)")
@@ -209,7 +211,7 @@ func main() {
 		return
 	}
 
-	c := &Ctx{prop: *prop, tier: *tier, seed: *seed, driver: *driver, maxV: 20,
+	c := &Ctx{prop: *prop, tier: *tier, seed: *seed, driver: *driver, gendriver: *gendriver, maxV: 20,
 		rep: &Report{Property: *prop, Tier: *tier, Seed: *seed}}
 	if *replay != "" {
 		data, err := os.ReadFile(*replay)
